@@ -243,7 +243,9 @@ struct ExecOutcome {
 }
 
 /// mode 0: submit everything at once before the workers are polled (current-thread) / as fast as possible;
-/// mode 1: let the workers go idle first, then submit; mode 2: idle first and yield between submissions
+/// mode 1: let the workers go idle first, then submit; mode 2: idle first and yield between submissions;
+/// mode 3: the workers have been idle for 120 ms (past their spin phase, deep in the sleep back-off);
+/// mode 4: two waves - the second half is submitted after the first half has drained and the executor went idle
 async fn exec_body(nw: usize, cap: usize, mode: u64, codes: Vec<i64>) -> ExecOutcome {
     let n = codes.len();
     // ids 0..n are the submitted tasks, n..2n the children that behaviour-5 tasks submit from inside a worker
@@ -255,8 +257,17 @@ async fn exec_body(nw: usize, cap: usize, mode: u64, codes: Vec<i64>) -> ExecOut
         Ok(e) => e,
         Err(e) => { out.err = Some(format!("new({}, {}) failed: {:?}", nw, cap, e)); return out; }
     };
-    if mode >= 1 { tokio::time::sleep(Duration::from_millis(3)).await; }
+    if mode >= 1 { tokio::time::sleep(Duration::from_millis(if mode == 3 { 120 } else { 3 })).await; }
     for (i, &c) in codes.iter().enumerate() {
+        if mode == 4 && i == n / 2 && i > 0 {
+            // let the first wave drain (bounded), then go on
+            let t0 = Instant::now();
+            while t0.elapsed() < Duration::from_millis(400) {
+                if (0..i).all(|k| !out.accept[k] || counters[k].load(Ordering::SeqCst) >= 1) && ex.is_idle() { break; }
+                tokio::time::sleep(Duration::from_micros(300)).await;
+            }
+            tokio::time::sleep(Duration::from_millis(2)).await;
+        }
         let t = CountTask { id: i, prio: code_prio(c), steal: code_steal(c), beh: code_beh(c), counters: counters.clone(),
                             nest: if code_beh(c) == 5 { Some((ex.clone(), n, child.clone())) } else { None } };
         out.accept.push(ex.submit(Box::new(t)).is_ok());
@@ -973,7 +984,7 @@ fn enumerate_queue(cx: &mut Ctx, len: usize, alphabet: &[i64], cap: usize, strid
 
 pub fn run(args: &Args) {
     let mut cx = Ctx {
-        sum: Summary::new("C18", "corpus; all WorkStealingQueue histories of <= 6 operations over push(prio 0/1, stealable or not)/pop_local/steal/balance + random histories around the capacity; the running executor with 1, 2, 3, 4 workers on current-thread and multi-thread runtimes, task counts around workers*capacity, around the global overflow and around the balance trigger (100 executed), mixed priorities/stealability/task behaviour, workers idle or not when the tasks arrive; parallel_map/for_each/reduce, process_batch, execute_stream, BatchCollector and the yield/aio helpers on vectors of length 0..40 with and without failing, panicking and timed-out items, concurrency limits around the input length. A case is non-trivial when it has >= 2 tasks/items (queue histories: >= 2 pushes and a steal or balance); distinct = distinct canonical case text"),
+        sum: Summary::new("C18", "corpus; all WorkStealingQueue histories of <= 6 operations over push(prio 0/1, stealable or not)/pop_local/steal/balance + random histories around the capacity; the running executor with 1, 2, 3, 4 workers on current-thread and multi-thread runtimes, task counts around workers*capacity, around the global overflow and around the balance trigger (100 executed), mixed priorities/stealability/task behaviour (incl. tasks that submit children from inside a worker), workers busy / idle / idle for 120 ms when the tasks arrive, a second wave after a complete drain; executor histories through the paused-executor hook (all interleavings of submit/find_task/balance of small shape for 1 and 2 workers + random ones for 1..4 workers); parallel_map/for_each/reduce, process_batch, execute_stream, BatchCollector and the yield/aio helpers on vectors of length 0..40 with and without failing, panicking and timed-out items, concurrency limits around the input length. A case is non-trivial when it has >= 2 tasks/items (queue histories: >= 2 pushes and a steal or balance); distinct = distinct canonical case text"),
         shards: CoqShards::new(&header(), 300),
         budget: if args.thorough { [5000, 600, 1200, 1200, 1200, 600, 4000, 1200] } else { [400, 60, 150, 120, 120, 60, 400, 120] },
         used: [0; 8],
@@ -1076,6 +1087,16 @@ pub fn run(args: &Args) {
             let codes: Vec<i64> = (0..n).map(|i| 1001 + if i % 4096 == 7 { 2 } else { 0 }).collect();
             exec_case(&mut cx, nw, cap, 0, 0, &codes, true);
             if !thorough { break; }
+        }
+        // 3c'. long-idle workers and a second wave after a complete drain
+        for &(nw, cap, rt) in &[(1usize, 4usize, 0usize), (2, 2, 2), (1, 64, 2), (4, 1, 4)] {
+            for mode in 3..5u64 {
+                let mut r = cx.rng.clone();
+                let n = if mode == 4 { 2 * (nw * cap + 3) } else { nw * cap + 2 };
+                let codes: Vec<i64> = (0..n).map(|_| rand_code(&mut r, 2, true)).collect();
+                cx.rng = r;
+                exec_case(&mut cx, nw, cap, rt, mode, &codes, false);
+            }
         }
         // 3d. random configurations
         let nrand = if thorough { 1500 } else { 60 };
